@@ -28,19 +28,23 @@ LEN = {"um": 1e-6, "nm": 1e-9, "mm": 1e-3}
 CUR = {"uA": 1e-6, "nA": 1e-9, "mA": 1e-3, "A": 1.0}
 
 
-def cfg(guarded=True):
-    return (f"CONSTANTS\n Guarded = {'TRUE' if guarded else 'FALSE'}\n Tol = {TOL}\n CTol = {CTOL}\n"
+def cfg(guarded=True, known=False):
+    """known = TRUE: the bitwise clause is demanded modulo the open known finding (ExactlyStationaryModKnown ==
+    (seeded \\/ psi == 1 bitwise) /\\ mu, currents, induced potential exactly 0); known = FALSE: the un-weakened clause."""
+    return (f"CONSTANTS\n Guarded = {'TRUE' if guarded else 'FALSE'}\n Known = {'TRUE' if known else 'FALSE'}\n Tol = {TOL}\n CTol = {CTOL}\n"
             "SPECIFICATION Spec\nINVARIANT Accepted\nINVARIANT NonVacuous\nINVARIANT BalancedAssignmentsAccepted\n"
             "INVARIANT FrameZeroIsInitialState\nINVARIANT CellOutflowEqualsInjection\nINVARIANT TerminalInflowEqualsRequested\n"
-            "INVARIANT ExactlyStationary\nINVARIANT StepGrowsToMax\nINVARIANT StationaryToRounding\nCHECK_DEADLOCK FALSE\n")
+            f"INVARIANT {'ExactlyStationaryModKnown' if known else 'ExactlyStationary'}\nINVARIANT StepGrowsToMax\n"
+            "INVARIANT StationaryToRounding\nCHECK_DEADLOCK FALSE\n")
 
 
 def diagnosis_cfg():
-    return (f"CONSTANTS\n Guarded = FALSE\n Tol = {TOL}\n CTol = {CTOL}\nSPECIFICATION Spec\nINVARIANT Diagnosis\nCHECK_DEADLOCK FALSE\n")
+    return (f"CONSTANTS\n Guarded = FALSE\n Known = FALSE\n Tol = {TOL}\n CTol = {CTOL}\nSPECIFICATION Spec\nINVARIANT Diagnosis\n"
+            "CHECK_DEADLOCK FALSE\n")
 
 
 CLAUSES = ["BalancedAssignmentsAccepted", "FrameZeroIsInitialState", "CellOutflowEqualsInjection", "TerminalInflowEqualsRequested",
-           "ExactlyStationary", "StepGrowsToMax", "StationaryToRounding"]
+           "ExactlyStationary", "StepGrowsToMax", "StationaryToRounding", "ExactlyStationaryModKnown"]
 
 
 def q(x, quantum):
@@ -126,10 +130,19 @@ def read_frames(path):
     return frames
 
 
-def run_solver(tdgl, a, tmp):
-    """-> (accepted?, frames, dev, error text)"""
+def run_solver(tdgl, a, tmp, capture=None):
+    """-> (accepted?, frames, dev, error text).  With capture = {} the REAL TDGLSolver object of the run is stored in
+    capture["solver"] (run-time wrapper on TDGLSolver.solve, DESIGN.md 4.1; arguments and results untouched)."""
+    from tdgl.solver.solver import TDGLSolver
+
     work = tempfile.mkdtemp(prefix="runobs", dir=tmp)
     cwd = os.getcwd()
+    orig_solve = TDGLSolver.solve
+    if capture is not None:
+        def w_solve(self):
+            capture["solver"] = self
+            return orig_solve(self)
+        TDGLSolver.solve = w_solve
     try:
         os.chdir(work)
         dev = make_device(tdgl, a)
@@ -142,8 +155,28 @@ def run_solver(tdgl, a, tmp):
             raise
         return True, read_frames(sol.path), dev, None
     finally:
+        TDGLSolver.solve = orig_solve
         os.chdir(cwd)
         shutil.rmtree(work, ignore_errors=True)
+
+
+HALF_ULP_UP = 2.0 ** -53      # 1 + y rounds to 1.0 for 0 <= y <= 2^-53 (ties to even)
+HALF_ULP_DOWN = 2.0 ** -54    # 1 + y rounds to 1.0 for -2^-54 <= y <= 0 (the spacing below 1.0 is 2^-53)
+
+
+def rounding_seed(solver, dt):
+    """Rounding seed of the call site `psi_laplacian @ psi` at psi = 1, computed from the REAL operators of the run with
+    the expression of solve_for_psi_squared: y_i = (dt/u) * sqrt(1 + gamma^2 |psi|^2) * ((eps - |psi|^2) psi + L psi)_i at
+    psi = 1, eps = 1.  The update forms psi + y; if every fl(1 + y_i) is 1.0 the assembled Laplacian cannot move psi off
+    1.0 (w = z + 1 exactly, root exactly 1).  -> (max |y_i|, seeded)"""
+    ops = solver.operators
+    one = np.ones(ops.psi_laplacian.shape[0], dtype=np.complex128)
+    a = np.absolute(one) ** 2
+    y = (dt / solver.u) * np.sqrt(1 + solver.gamma ** 2 * a) * ((solver.epsilon - a) * one + ops.psi_laplacian @ one)
+    seeded = bool(np.any(one + y != one))
+    yr = np.real(y)
+    seeded_by_threshold = bool(np.any(yr > HALF_ULP_UP) or np.any(yr < -HALF_ULP_DOWN) or np.any(np.imag(y) != 0))
+    return float(np.abs(y).max()), seeded, seeded_by_threshold
 
 
 def nums_of(a):
@@ -178,8 +211,19 @@ def stationary_run(tdgl, a, tmp):
         ratio = (a.get("dt_max", 0.125) / dt0) if a.get("adaptive") else 1.0
         dt = min(dt0, 2.0 ** math.floor(math.log2(limit / ratio)))
         a = dict(a, dt=dt, dt_max=dt * ratio, solve_time=a["solve_time"] * dt / dt0)
-    ok, frames, dev, err = run_solver(tdgl, a, tmp)
+    cap = {}
+    try:
+        ok, frames, dev, err = run_solver(tdgl, a, tmp, capture=cap)
+    except RuntimeError as e:       # the solver gave up (retries / screening iterations exhausted) on the uniform state
+        return {"cfg": {"adaptive": bool(a.get("adaptive", False)), "window": int(a.get("window", 3)), "driven": False,
+                        "screening": bool(a.get("screening", False))},
+                "seed": 0.0, "seeded": False, "seed_over_half_ulp": 0.0, "ev": [{"kind": "raised"}], "args": a, "raised": repr(e),
+                "worst": {}, "nsites": 0, "nsteps": 0, "dt_last": None}
     dt_init, dt_max = a.get("dt", 2.0 ** -6), a.get("dt_max", 0.125)
+    dt_largest = dt_max if a.get("adaptive") else dt_init
+    seed, seeded, seeded_thr = rounding_seed(cap["solver"], dt_largest)
+    if seeded != seeded_thr:
+        raise RuntimeError(f"rounding seed: fl(1 + y) test ({seeded}) and half-ulp thresholds ({seeded_thr}) disagree")
     ev = []
     worst = {"psi": 0.0, "mu": 0.0, "js": 0.0, "jn": 0.0, "ind": 0.0}
     for fr in frames:
@@ -196,9 +240,10 @@ def stationary_run(tdgl, a, tmp):
                    "jn0": bool(not fr["normal_current"].any()), "ind0": bool(not fr["induced_vector_potential"].any()),
                    "dev": q(float(max(np.abs(fr["psi"] - 1).max(), np.abs(fr["mu"]).max(), np.abs(fr["supercurrent"]).max(),
                                       np.abs(fr["normal_current"]).max(), np.abs(fr["induced_vector_potential"]).max())), FINE),
-                   "dts": cls})
+                   "seeded": seeded, "dts": cls})
     return {"cfg": {"adaptive": bool(a.get("adaptive", False)), "window": int(a.get("window", 3)), "driven": False,
                     "screening": bool(a.get("screening", False))},
+            "seed": seed, "seeded": seeded, "seed_over_half_ulp": seed / HALF_ULP_UP,
             "ev": ev, "args": a, "worst": worst, "nsites": int(len(dev.mesh.sites)), "nsteps": sum(len(f["dts"]) for f in frames),
             "dt_last": frames[-1]["dts"][-1] if frames and frames[-1]["dts"] else None}
 
@@ -369,12 +414,12 @@ def tlc_traces(ctx, traces, cfg_text, name, count=True):
     return accepted, r
 
 
-def validate(ctx, traces, what, describe):
+def validate(ctx, traces, what, describe, known=False):
     """Validate run traces with RunObs; report rejected ones (clauses named by TLC).  Returns accepted ids."""
     from . import core
 
     norm = [to_tlc(t) for t in traces]
-    accepted, r = tlc_traces(ctx, norm, cfg(True), f"RunObs[{what}]")
+    accepted, r = tlc_traces(ctx, norm, cfg(True, known), f"RunObs[{what}]")
     if "NonVacuous" in r.violated:
         raise core.MachineryFailure(f"{what}: a driven run produced no checked frame with a requested current (vacuous)")
     ctx.cov["traces_validated_against_impl"] += len(accepted)
